@@ -274,7 +274,7 @@ func New(config ...Config) fiber.Handler {
 	}
 }
 
-// Check if request has directive
+// Check if request has directive (directive names are case-insensitive, RFC 9111 section 5.2)
 func hasRequestDirective(c fiber.Ctx, directive string) bool {
-	return strings.Contains(c.Get(fiber.HeaderCacheControl), directive)
+	return strings.Contains(utils.ToLower(c.Get(fiber.HeaderCacheControl)), directive)
 }
